@@ -282,9 +282,22 @@ def stream_pos(v, p):
     return None
 
 
-def check_primitives(ctx, rep):
+def check_primitives(ctx, rep, rule='R02.8', only=None):
     F = ctx.facts()
     C = 'compiler::Compiler::'
+    _rep = rep
+
+    class _Only:
+        def ob(self, ok, r, fnpath, *a, **k):
+            if only is None or fnpath.split('::')[-1] in only:
+                _rep.ob(ok, r, fnpath, *a, **k)
+        def count(self, k, v):
+            if only is None:
+                _rep.count(k, v)
+
+        def __getattr__(self, n):
+            return getattr(_rep, n)
+    rep = _Only()
 
     def paths(name):
         fn = F.fn(C + name)
@@ -305,11 +318,11 @@ def check_primitives(ctx, rep):
         ws = self_writes(p)
         ok = ok and len(ws) == 1 and ws[0][1][0] == 'agg' and ws[0][1][2] == 'Some' and ws[0][1][3][0] == ('local', 2)
         ok = ok and len([c for c in p.calls if c[1] != 'drop']) == 1
-    rep.ob(ok, 'R02.8', fn.path, 'contract', 'appends exactly one byte `op as u8` and sets last_instruction = Some(op)', fn.loc())
+    rep.ob(ok, rule, fn.path, 'contract', 'appends exactly one byte `op as u8` and sets last_instruction = Some(op)', fn.loc())
     # emit_u8
     fn, ps = paths('emit_u8')
     ok = len(ps) == 1 and [c[1] for c in ps[0].calls] == [PUSH] and ps[0].calls[0][2][1] == ('local', 2) and not self_writes(ps[0])
-    rep.ob(ok, 'R02.8', fn.path, 'contract', 'appends exactly one operand byte and leaves last_instruction', fn.loc())
+    rep.ob(ok, rule, fn.path, 'contract', 'appends exactly one operand byte and leaves last_instruction', fn.loc())
     # emit_u16 (little endian) vs VM::read_u16: the k-th byte written is byte k of the value, the k-th byte read becomes byte k
     fn, ps = paths('emit_u16')
     ok = len(ps) == 1
@@ -330,7 +343,8 @@ def check_primitives(ctx, rep):
     if okr:
         parts = bytes_joined(rps[0].env.get('_0'), rps[0].env)
         okr = parts is not None and [stream_pos(x, rps[0]) for x in parts] == [0, 1]
-    rep.ob(ok and okr, 'R02.8', fn.path, 'contract', 'emit_u16 appends the low byte then the high byte of its argument; VM::read_u16 assembles byte 0 as low and byte 1 as high', fn.loc())
+    ok = ok and fn.local_ty(2) == 'u16'       # a wider argument would lose its upper bytes without an error
+    rep.ob(ok and okr, rule, fn.path, 'contract', 'emit_u16 appends the low byte then the high byte of its argument; VM::read_u16 assembles byte 0 as low and byte 1 as high', fn.loc())
     # change_jump_operand_at
     fn, ps = paths('change_jump_operand_at')
     ok = bool(ps)
@@ -371,7 +385,13 @@ def check_primitives(ctx, rep):
         okb = len(idxm) == 2 and all(id(c) in stored for c in idxm) and \
             [(narrowed_base(b_[0]), b_[1]) if b_ else None for b_ in (byte_of(stored[id(idxm[0])], p.env), byte_of(stored[id(idxm[1])], p.env))] == [(('local', 3), 0), (('local', 3), 1)]
         ok = ok and len(idxm) == 2 and is_idx_plus(idxm[0][2][1], 1) and is_idx_plus(idxm[1][2][1], 2) and okb and not [w for w in self_writes(p) if 'f3' in w[0]]
-    rep.ob(ok, 'R02.8', fn.path, 'contract', 'overwrites exactly bytes idx+1 and idx+2 (low byte, high byte of the value) and nothing else', fn.loc())
+    # the value is 16 bits wide where its two bytes are taken: the parameter itself is a u16, or it is narrowed by a checked
+    # conversion *to u16* first (a wider value would be cut to its low 16 bits: a jump that wraps around)
+    if fn.local_ty(3) != 'u16':
+        narrows = [(b_, t_) for b_, t_ in fn.calls() if callee_name(t_) == 'compiler::narrow' or callee_name(t_).endswith(('::try_from', '::try_into'))]
+        okw = bool(narrows) and all(t_.get('dest') is not None and 'u16' in fn.local_ty(t_['dest']['local']) for b_, t_ in narrows)
+        ok = ok and okw
+    rep.ob(ok, rule, fn.path, 'contract', 'overwrites exactly bytes idx+1 and idx+2 (low byte, high byte of the 16-bit value) and nothing else', fn.loc())
     # last_instruction_is: pure
     fn, ps = paths('last_instruction_is')
     ok = bool(ps) and all(not self_writes(p) and all(c[1].endswith('::eq') or c[1] == 'drop' for c in p.calls) for p in ps)
@@ -381,7 +401,7 @@ def check_primitives(ctx, rep):
         if ok:
             a0, a1 = [deref(ps[0].env, x) for x in c[0][2]]
             ok = (a1[0] == 'agg' and a1[2] == 'Some' and a1[3][0] == ('local', 2)) or (a0[0] == 'agg' and a0[2] == 'Some')
-    rep.ob(ok, 'R02.8', fn.path, 'contract', 'pure test last_instruction == Some(op)', fn.loc())
+    rep.ob(ok, rule, fn.path, 'contract', 'pure test last_instruction == Some(op)', fn.loc())
     # remove_last_instruction
     fn, ps = paths('remove_last_instruction')
     ok = bool(ps)
@@ -391,7 +411,7 @@ def check_primitives(ctx, rep):
         ok = ok and len(pops) == 1 and len(ws) == 1 and ws[0][1] == ('enum', 'core::option::Option', 'None') or \
             (ok and len(pops) == 1 and len(ws) == 1 and ws[0][1][0] in ('agg', 'enum') and ws[0][1][2] == 'None')
         ok = ok and not [c for c in p.calls if c[1] == PUSH]
-    rep.ob(ok, 'R02.8', fn.path, 'contract', 'removes exactly one byte and sets last_instruction = None', fn.loc())
+    rep.ob(ok, rule, fn.path, 'contract', 'removes exactly one byte and sets last_instruction = None', fn.loc())
     rep.count('primitive_contracts', 6)
 
 
@@ -438,6 +458,14 @@ def check_ranges(ctx, rep):
             ok = (v[0] in ('field', 'downcast') and 'position' in show(v)) or (yielded is not None and 'f%d' % next((i for i, f_ in enumerate(F.adt('compiler::Compiler')['variants'][0]['fields']) if f_['name'] == 'constants'), -1) in str(yielded))
             rep.ob(ok, 'R02.6', fn.path, 'existing constant', 'returns an index the standard library yielded for the constant pool (position / enumerate): %s' % show(v), fn.loc())
     rep.count('add_constant_paths', n)
+    check_frame_size(ctx, rep, 'R02.6')
+    from rules import c09
+    c09.check_visibility(ctx, rep, 'R02.6')
+
+
+def check_frame_size(ctx, rep, rule):
+    """the frame size of a function (Context::max_size, packed into the function value) counts every parameter and local"""
+    F = ctx.facts()
     # Context::define: push + max_size increment on the same path; nothing decrements max_size
     S = 'symbols::'
     dfn = F.fn(S + 'Context::define')
@@ -447,13 +475,13 @@ def check_ranges(ctx, rep):
         pushes = [c for c in p.calls if c[1] == 'alloc::vec::Vec::<T, A>::push']
         inc = [w for w in p.writes if w[3]['place']['proj'] and 'max_size' in place_fields(w[3]['place'])]
         okinc = len(inc) == 1 and (('AddWithOverflow' in show(inc[0][2])) or is_binop(inc[0][2], 'Add'))
-        rep.ob(len(pushes) == 1 and okinc, 'R02.6', dfn.path, 'define grows max_size', 'every defined name increments the frame size (max_size): %s' % [show(w[2]) for w in inc], dfn.loc())
+        rep.ob(len(pushes) == 1 and okinc, rule, dfn.path, 'define grows max_size', 'every defined name increments the frame size (max_size): %s' % [show(w[2]) for w in inc], dfn.loc())
     decs = []
     for f in F.all_fns:
         for b, si, st in f.stmts():
             if st['k'] == 'assign' and 'max_size' in place_fields(st['place']) and f.path not in (S + 'Context::define', S + 'Context::new'):
                 decs.append(f.path)
-    rep.ob(not decs, 'R02.6', S + 'Context', 'max_size writers', 'max_size is written only by define (increment) and new (0): also %s' % decs, dfn.loc())
+    rep.ob(not decs, rule, S + 'Context', 'max_size writers', 'max_size is written only by define (increment) and new (0): also %s' % decs, dfn.loc())
     # leave_context returns that max_size
     lfn = F.fn(S + 'SymbolTable::leave_context')
     ok = False
@@ -461,9 +489,7 @@ def check_ranges(ctx, rep):
         if p.exit == 'return':
             r = p.env.get('_0')
             ok = r[0] == 'call' and r[1] == S + 'Context::max_size'
-    from rules import c09
-    c09.check_visibility(ctx, rep, 'R02.6')
-    rep.ob(ok, 'R02.6', lfn.path, 'returns max_size', 'the frame size handed to Object::function is the context max_size', lfn.loc())
+    rep.ob(ok, rule, lfn.path, 'returns max_size', 'the frame size handed to Object::function is the context max_size', lfn.loc())
 
 
 def check_casts(ctx, rep, rule='R02.4', only=None):
